@@ -289,6 +289,78 @@ def main():
                   slice(rac.rng.choice([None, -1.0, 0, 1.5]), rac.rng.choice([None, 0, 0.5, 2.0]), "s"),
                   slice(col[3], col[-2]), slice(col[1] + "::-1", None)]:
             check(rac, col, vals, s, "Table._get_regexp_indices")
+    rac.section("dtypes+flags", "value ranges lo:hi:'col' on columns of every numeric storage type (unsigned / signed / narrow integers, float32; sorted, "
+                "unsorted, constant) incl. NaN bounds; and one pattern used on two tables with DIFFERENT regex flags in one process (a table built with "
+                "regex_flags=0 matches case-sensitively, a default table case-insensitively -- in either order of use)",
+                "9 dtypes x 6 value lists x 25 ranges; 6 patterns x 2 orders")
+    DT = '''
+import re
+import numpy as np
+import xdeps
+def mkd(vals, dtype):
+    n = len(vals)
+    return xdeps.Table({"name": np.array(["r%d" % i for i in range(n)], dtype=object), "v": np.array(vals).astype(dtype)})
+def want_range(vals, dtype, lo, hi):
+    v = np.array(vals).astype(dtype)
+    return [i for i in range(len(v)) if (lo is None or lo <= v[i]) and (hi is None or v[i] <= hi)]
+def mkf(col, flags=None):
+    kw = {} if flags is None else dict(regex_flags=flags)
+    return xdeps.Table({"name": np.array(list(col), dtype=object), "s": np.arange(len(col)) * 1.0}, **kw)
+def want_names(col, pat, flags):
+    rx = re.compile(pat, flags)
+    return [i for i, nm in enumerate(col) if rx.fullmatch(nm)]
+'''
+    denv = {}
+    exec(DT, denv)
+    for dtype in ("uint8", "uint16", "uint64", "int8", "int32", "int64", "float32", "float64", "bool"):
+        for vals in ([3, 1, 4, 0, 2], [0, 1, 2, 3, 4], [4, 3, 2, 1, 0], [2, 2, 2], [1, 0, 1, 0], [7]):
+            for lo in (None, 0, 1, 2, float("nan")):
+                for hi in (None, 0, 2, 3, float("nan")):
+                    if lo is None and hi is None:
+                        continue
+                    body = f"t = mkd({vals!r}, {dtype!r})\ngot = [int(i) for i in t.rows.indices[{lo!r}:{hi!r}:'v']]\nwant = want_range({vals!r}, {dtype!r}, {lo!r}, {hi!r})\nprint(got, want)\nassert got == want\n".replace("nan", "float('nan')")
+                    rac.case((dtype, tuple(vals), repr(lo), repr(hi)), sample=dict(dtype=dtype, values=vals, lo=repr(lo), hi=repr(hi)))
+                    try:
+                        t = denv["mkd"](vals, dtype)
+                        want = denv["want_range"](vals, dtype, lo, hi)
+                        got = [int(i) for i in t.rows.indices[lo:hi:"v"]]
+                        gotm = [i for i, b in enumerate(t.rows.mask[lo:hi:"v"]) if b]
+                        gotr = list(t.rows[lo:hi:"v"]["name"])
+                        if got != want or gotm != want or gotr != ["r%d" % i for i in want]:
+                            rac.fail(f"dtype-range {dtype} {vals} {lo!r} {hi!r}", f"C08 column v={vals} stored as {dtype}: rows[{lo!r}:{hi!r}:'v'] gives rows {got} "
+                                     f"(mask {gotm}, names {gotr}), the selector denotes {want}", PRELUDE + DT + body, "Table._get_row_indices")
+                    except Exception as ex:     # noqa
+                        rac.fail(f"dtype-range {dtype} {vals} {lo!r} {hi!r}", f"C08 column v={vals} stored as {dtype}: rows[{lo!r}:{hi!r}:'v'] raised "
+                                 f"{type(ex).__name__}: {ex}", PRELUDE + DT + body, "Table._get_row_indices")
+    fcol = ["ip1", "MQ.1", "mq.2", "Mq.1", "end", "IP1", "mq.2"]
+    for pat in ("mq.*", "MQ\\.1", "ip1", ".*1", "mq.*::1", "IP.*"):
+        for order in ("sensitive-first", "default-first"):
+            body = (f"col = {fcol!r}\nts, td = mkf(col, 0), mkf(col)\norder = {order!r}\n"
+                    f"for t, fl in ([(ts, 0), (td, re.IGNORECASE)] if order == 'sensitive-first' else [(td, re.IGNORECASE), (ts, 0)]) * 2:\n"
+                    f"    got = [int(i) for i in t.rows.indices[{pat.split('::')[0]!r}]]\n    print(fl, got)\n    assert got == want_names(col, {pat.split('::')[0]!r}, fl)\n")
+            rac.case((pat, order), sample=dict(pattern=pat, order=order))
+            try:
+                ts, td = denv["mkf"](fcol, 0), denv["mkf"](fcol)
+                seq = [(ts, 0), (td, re.IGNORECASE)] if order == "sensitive-first" else [(td, re.IGNORECASE), (ts, 0)]
+                for t, fl in seq * 2:
+                    base = pat.split("::")[0]
+                    got = [int(i) for i in t.rows.indices[base]]
+                    want = denv["want_names"](fcol, base, fl)
+                    if got != want:
+                        rac.fail(f"flags {pat} {order}", f"C08 index column {fcol}: rows.indices[{base!r}] on the table with regex flags {int(fl)} gives {got}, "
+                                 f"the selector denotes {want} (the other table was queried with the same pattern before)", PRELUDE + DT + body, "Table._get_regexp_indices")
+                        break
+                    if "::" in pat:
+                        cnt = int(pat.split("::")[1])
+                        got2 = [int(i) for i in t.rows.indices[pat]]
+                        want2 = sorted(occ[cnt] for nm in sorted(set(fcol[i] for i in want))
+                                       for occ in [[i for i, x in enumerate(fcol) if x == nm]] if cnt < len(occ))
+                        if got2 != want2:
+                            rac.fail(f"flags {pat} {order}", f"C08 index column {fcol}: rows.indices[{pat!r}] with regex flags {int(fl)} gives {got2}, the selector "
+                                     f"denotes {want2}", PRELUDE + DT + body, "Table._get_regexp_indices")
+                            break
+            except Exception as ex:     # noqa
+                rac.fail(f"flags {pat} {order}", f"C08 flags scenario {pat} {order}: {type(ex).__name__}: {ex}", PRELUDE + DT + body, "Table._get_regexp_indices")
     return rac.finish()
 
 
